@@ -114,13 +114,47 @@ func (t *c17xzTool) run(flag string, in []byte) (out []byte, code int, stderr st
 // after the xz leg, with the encoding and the payload in memory. Nothing is
 // written or run today.
 func c17wuffsLegHook(rc *vk.Rec, format string, enc, x []byte, phase string, idx int64) {
-	_ = rc
-	_ = format
-	_ = enc
-	_ = x
-	_ = phase
-	_ = idx
+	// Third decoder leg (generated Wuffs std/lzma, std/xz): the child only
+	// exports a bounded number of encodings; the driver (props/c17.go) decodes
+	// them with the sanitized wdrive build and compares with the payload hash.
+	dir := os.Getenv("VERIF_C17_WDIR")
+	if dir == "" || len(enc) > 400000 {
+		return
+	}
+	limit := 70
+	if rc.Thorough() {
+		limit = 1500
+	}
+	if c17wExported >= limit {
+		return
+	}
+	// spread over phases: skip most of the dense length sweep
+	if phase == "sw" && idx%23 != 0 {
+		return
+	}
+	c17wExported++
+	kind := "lzma"
+	if strings.Contains(strings.ToLower(format), "xz") {
+		kind = "xz"
+	}
+	name := fmt.Sprintf("%s/s%d-%s-%d.%s", dir, rc.Shard, phase, idx, kind)
+	if err := os.WriteFile(name, enc, 0o644); err != nil {
+		return
+	}
+	h := uint64(0xcbf29ce484222325)
+	for _, c := range x {
+		h ^= uint64(c)
+		h *= 0x100000001b3
+	}
+	f, err := os.OpenFile(fmt.Sprintf("%s/manifest.%d", dir, rc.Shard), os.O_APPEND|os.O_CREATE|os.O_WRONLY, 0o644)
+	if err != nil {
+		return
+	}
+	fmt.Fprintf(f, "%s %s %d %016x %d %s %d\n", name, kind, len(x), h, len(enc), phase, idx)
+	f.Close()
 }
+
+var c17wExported int
 
 // ---------------------------------------------------------------------------
 // Shadow range encoder: counts carry events only (standard LZMA rc_shift_low
